@@ -391,7 +391,7 @@ func (t *WeightedMerkleTrie) Commit(collapseLevel int) (storage.Batcher, error) 
 	if ok {
 		eg, _ := errgroup.WithContext(context.Background())
 		eg.SetLimit(5)
-		deleteChan <- root.Hash()
+		prevHash := root.Hash()
 		for i := 0; i < len(&root.Children); i++ {
 			if root.Children[i] == nil || !root.Children[i].Dirty() {
 				continue
@@ -418,6 +418,10 @@ func (t *WeightedMerkleTrie) Commit(collapseLevel int) (storage.Batcher, error) 
 			return nil, err
 		}
 		createdChan <- root.Hash()
+		// like commit: a root that is dirty but hashes as before is the live root
+		if !bytes.Equal(prevHash, root.Hash()) {
+			deleteChan <- prevHash
+		}
 		t.root = root
 		return batcher, nil
 	}
